@@ -96,6 +96,7 @@ structure Ctl where
   queue      : List QItem := []
   seq        : Nat := 0
   maxWaiting : Nat := 5
+  used       : Nat := 0                    -- random numbers drawn so far (RandBuckets.GetOperator)
   deriving Repr, Inhabited
 
 def Ctl.getOp (c : Ctl) (id : Nat) : Option Op := c.ops.find? (fun o => o.id == id)
@@ -356,13 +357,18 @@ def decWaiting (c : Ctl) (id : Nat) : Ctl :=
   { c with wopCount := setCount c.wopCount d (lookupCount c.wopCount d - 1) }
 
 /-- PromoteWaitingOperator; `rs` = the random numbers its calls of GetOperator will draw -/
+def bump (c : Ctl) : Ctl := { c with used := c.used + 1 }
+
+/-- GetOperator returns nil without drawing a number when every bucket is empty -/
+def bumpUnlessEmpty (c : Ctl) : Ctl := if c.waiting.all (fun b => b.isEmpty) then c else bump c
+
 def promote (c : Ctl) : List Nat → Ctl × List Msg
   | [] => (c, [])
   | r :: rs =>
     match pickBucket c.waiting r with
-    | none => (c, [])
+    | none => (bumpUnlessEmpty c, [])
     | some i =>
-      let (c, ids) := takeFrom c i
+      let (c, ids) := takeFrom (bump c) i
       match ids with
       | [] => (c, [])
       | first :: _ =>
@@ -489,7 +495,7 @@ def pushLoop (c : Ctl) (rs : List Nat) : Nat → Ctl × List Msg
           match (o.check v).2 with
           | none =>
             let (c3, m) := dispatch c2 v false rs
-            let (c4, m2) := pushLoop c3 rs fuel
+            let (c4, m2) := pushLoop c3 (rs.drop (c3.used - c2.used)) fuel
             (c4, m ++ m2)
           | some s =>
             if item.left != 0 then
@@ -499,7 +505,7 @@ def pushLoop (c : Ctl) (rs : List Nat) : Nat → Ctl × List Msg
               -- due: the entry goes back with a new time, the region is dispatched
               let c2' := { c2 with queue := c2.queue ++ [⟨item.op, notifyAfter (some s), c2.seq⟩], seq := c2.seq + 1 }
               let (c3, m) := dispatch c2' v false rs
-              let (c4, m2) := pushLoop c3 rs fuel
+              let (c4, m2) := pushLoop c3 (rs.drop (c3.used - c2'.used)) fuel
               (c4, m ++ m2)
 
 def pushOperators (c : Ctl) (rs : List Nat) : Ctl × List Msg := pushLoop c rs (2 * c.queue.length + 2)
